@@ -11,6 +11,7 @@ package e2e
 import (
 	"context"
 	"encoding/json"
+	"reflect"
 	"errors"
 	"fmt"
 	"regexp"
@@ -45,6 +46,47 @@ type c14Holder struct {
 		} `mapstructure:"n" json:"n" yaml:"n"`
 	} `mapstructure:"sub" json:"sub" yaml:"sub"`
 	A any `mapstructure:"a" json:"a" yaml:"a"`
+}
+
+// c14CustomMarshal: a configuration struct with its own confmap.Marshaler
+type c14CustomMarshal struct {
+	Token   configopaque.String
+	Headers map[string]configopaque.String
+	Keys    []configopaque.String
+}
+
+func (c c14CustomMarshal) Marshal(conf *confmap.Conf) error {
+	return conf.Merge(confmap.NewFromStringMap(map[string]any{
+		"auth": map[string]any{"token": c.Token, "headers": c.Headers, "keys": c.Keys},
+	}))
+}
+
+// c14Plain converts every string-kind value of a decoded configuration map to a plain string (what a consumer of the
+// effective configuration that does not know the opaque type sees)
+func c14Plain(v any) any {
+	rv := reflect.ValueOf(v)
+	switch rv.Kind() {
+	case reflect.String:
+		return rv.String()
+	case reflect.Map:
+		out := map[string]any{}
+		for _, k := range rv.MapKeys() {
+			out[fmt.Sprint(k.Interface())] = c14Plain(rv.MapIndex(k).Interface())
+		}
+		return out
+	case reflect.Slice, reflect.Array:
+		var out []any
+		for i := 0; i < rv.Len(); i++ {
+			out = append(out, c14Plain(rv.Index(i).Interface()))
+		}
+		return out
+	case reflect.Ptr, reflect.Interface:
+		if rv.IsNil() {
+			return nil
+		}
+		return c14Plain(rv.Elem().Interface())
+	}
+	return v
 }
 
 func c14MkHolder(sec string) c14Holder {
@@ -173,6 +215,33 @@ func c14Renderings(sec string, quick bool) map[string]string {
 		out["confmap:holder"] = "ERR " + err.Error()
 	} else {
 		out["confmap:holder"] = fmt.Sprint(c.ToStringMap())
+	}
+	// a component configuration that customises its own marshalling (confmap.Marshaler) and merges its opaque values as Go
+	// values - as a nested field, as a map value and as the root
+	cm := c14CustomMarshal{Token: s, Headers: map[string]configopaque.String{"authorization": s}, Keys: []configopaque.String{s, s}}
+	for name, v := range map[string]any{
+		"confmap:custom-marshaler:nested-field": struct {
+			Name string           `mapstructure:"name"`
+			Exp  c14CustomMarshal `mapstructure:"exp"`
+		}{"n", cm},
+		"confmap:custom-marshaler:map-value": struct {
+			Exps map[string]c14CustomMarshal `mapstructure:"exps"`
+		}{map[string]c14CustomMarshal{"otlp": cm}},
+		"confmap:custom-marshaler:pointer-field": struct {
+			Exp *c14CustomMarshal `mapstructure:"exp"`
+		}{&cm},
+		"confmap:custom-marshaler:root": cm,
+	} {
+		c = confmap.New()
+		if err := c.Marshal(v); err != nil {
+			out[name] = "ERR " + err.Error()
+		} else {
+			// both the rendering of the map and what a reader of single settings gets (typed values would print redacted
+			// under %v although the map still holds the secret: decode into plain strings through JSON)
+			m := c.ToStringMap()
+			jb, _ := json.Marshal(c14Plain(m))
+			out[name] = fmt.Sprint(m) + " " + string(jb)
+		}
 	}
 	hc := confighttp.NewDefaultClientConfig()
 	hc.Headers = map[string]configopaque.String{"authorization": s, "x": s}
